@@ -130,7 +130,8 @@ int Util::parseSize(const std::string& input, int64_t* output) {
     if (v >= kLimit || static_cast<double>(size) + v >= kLimit) {
       return -1;
     }
-    size += v;
+    // add as integers: summing in double drops the low bits of large totals
+    size += static_cast<uint64_t>(v);
     pos = unit_pos + 1;
   }
   *output = is_neg ? -size : size;
